@@ -6,6 +6,10 @@ import traceback
 import warnings
 
 import numpy as np
+
+
+def GG_q(x, step=64.0):
+    return round(x * step) / step
 import torch
 
 from .core.simrng import SimRNG, SimBudgetExceeded
@@ -198,6 +202,33 @@ def run_c17(case):
                         out.append(viol("C17", "sampling", "draw-budget-exceeded", ""))
                 except Exception as ex:
                     out.append(viol("C17", "sampling", "raises:" + type(ex).__name__, innermost_site(ex.__traceback__),
+                                    msg=str(ex)[:160]))
+                # 4b. a moving fixed shape (the inner expression no longer depends on anything, the motion still does):
+                # the raw grid call with several parameter rows returns equal blocks, block i in the set of row i
+                try:
+                    if ast_n["k"] in ("transl", "rot") and ast_n["d"]["k"] in ("par", "tri") \
+                            and not G.free_vars(ast_n["d"]) and len(want_free) == 1 \
+                            and not G.is_boundary(ast_n) and not sim.fault:
+                        fv_ = want_free[0]
+                        vals_ = [full[fv_], GG_q(full[fv_] * 0.5 + 0.05), GG_q(1.0 - 0.5 * full[fv_])]
+                        ng = max(2, int(case["n"]))
+                        pr_ = B.params_points([[fv_, 1]], [[v_] for v_ in vals_])
+                        tg = Dn.sample_grid(n=ng, params=pr_).as_tensor.detach().double().numpy()
+                        if len(tg) % 3 == 0 and len(tg) >= 3 * ng:
+                            m_ = len(tg) // 3
+                            vname = dom_space[0][0]
+                            for bi_, v_ in enumerate(vals_):
+                                Pb = {vname: tg[bi_ * m_:(bi_ + 1) * m_], fv_: np.full((m_, 1), float(v_))}
+                                dd_ = G.dev(ast_n, Pb)
+                                stats["multi_row_grid_blocks"] = stats.get("multi_row_grid_blocks", 0) + 1
+                                if (dd_ > G.TOL_ON).any():
+                                    out.append(viol("C17", "sampling", "grid-block-outside-the-set-of-its-parameter-row", "",
+                                                    worst=float(dd_.max()), block=bi_))
+                                    break
+                        else:
+                            out.append(viol("C17", "sampling", "multi-row-grid-count", "", rows=len(tg), n=ng))
+                except Exception as ex:
+                    out.append(viol("C17", "sampling", "raises:" + type(ex).__name__, innermost_site(ex.__traceback__) + ":multi-row-grid",
                                     msg=str(ex)[:160]))
                 # 5. every earlier domain is unchanged
                 for i, (o, s0) in enumerate(zip(objs[:-1], snaps)):
